@@ -311,8 +311,10 @@ def check_placeholders(ctx: Ctx) -> None:
             return None
         if cb.how == "function" and isinstance(target, ast.Name):
             return k  # closure variable shared with the enclosing function
-        if cb.how == "instance" and cbf.params and k.startswith(cbf.params[0] + "."):
+        if cb.how in ("instance", "bound") and cbf.params and k.startswith(cbf.params[0] + "."):
             arg = e_call.args[1] if prog.resolve_call(ext, e_call) in ("re.sub", "re.subn") and len(e_call.args) > 1 else (e_call.args[0] if e_call.args else None)
+            if cb.how == "bound" and isinstance(arg, ast.Attribute):
+                arg = arg.value  # obj.method: the container is a field of obj
             if isinstance(arg, ast.Name):
                 return arg.id + k[len(cbf.params[0]):]
         return None
@@ -392,15 +394,20 @@ def check_placeholders(ctx: Ctx) -> None:
         what, where_c, lost = norm(cur_e), (res, h), False
         for caller, callee in reversed(list(zip(chain, chain[1:]))):
             cfl = prog.flow(callee)
-            if not (isinstance(cur_e, ast.Name) and cur_e.id in callee.params and all(d.kind == "param" for d in cfl.reaching(cur_n, cur_e.id))):
-                lost = True
-                break
             sites = [(n, c) for n, c in _calls_incl_comprehensions(prog, caller) if prog.resolve_call(caller, c) == [callee]]
             if len(sites) != 1:
                 lost = True
                 break
             n, c = sites[0]
-            arg = bind_call(callee, c).get(cur_e.id)
+            if isinstance(cur_e, ast.Attribute) and isinstance(cur_e.value, ast.Name) and callee.cls is not None and callee.params \
+                    and cur_e.value.id == callee.params[0] and isinstance(c.func, ast.Attribute):
+                # a field of the object the method was called on: self.X  ->  <receiver>.X
+                arg = ast.copy_location(ast.Attribute(value=c.func.value, attr=cur_e.attr, ctx=ast.Load()), c)
+            elif isinstance(cur_e, ast.Name) and cur_e.id in callee.params and all(d.kind == "param" for d in cfl.reaching(cur_n, cur_e.id)):
+                arg = bind_call(callee, c).get(cur_e.id)
+            else:
+                lost = True
+                break
             if arg is None:
                 lost = True
                 break
@@ -476,7 +483,12 @@ def _is_extracted_container(ctx: Ctx, call: FuncInfo, expr: ast.AST | None, node
     idx: set = set()
     for r in eflow.cfg.returns():
         v = r.ast.value
-        if isinstance(v, ast.Tuple):
+        if isinstance(v, ast.Tuple) and container is not None and "." in container and isinstance(expr, ast.Attribute) \
+                and any(isinstance(e, ast.Name) and e.id == container.rpartition(".")[0] for e in v.elts):
+            # the helper hands out the object whose field the callback filled: (obj, text) with container obj.field
+            hit = [i for i, e in enumerate(v.elts) if isinstance(e, ast.Name) and e.id == container.rpartition(".")[0]]
+            idx.add(("objfield", hit[0], container.rpartition(".")[2]) if len(hit) == 1 else None)
+        elif isinstance(v, ast.Tuple):
             if container is not None:
                 hit = [i for i, e in enumerate(v.elts) if isinstance(e, (ast.Name, ast.Attribute)) and chain_key(e) == container]
             else:
@@ -484,11 +496,24 @@ def _is_extracted_container(ctx: Ctx, call: FuncInfo, expr: ast.AST | None, node
             idx.add(hit[0] if len(hit) == 1 else None)
         elif container is not None and isinstance(v, (ast.Name, ast.Attribute)) and chain_key(v) == container:
             idx.add("whole")
+        elif container is not None and isinstance(v, ast.Call) and isinstance(v.func, (ast.Name, ast.Attribute)) \
+                and type(prog.repo.resolve_expr(v.func, ext.module, ext)).__name__ == "ClassInfo":
+            # a small record (NamedTuple / dataclass) holding the container in one of its fields
+            ci = prog.repo.resolve_expr(v.func, ext.module, ext)
+            fields = [st.target.id for st in ci.node.body if isinstance(st, ast.AnnAssign) and isinstance(st.target, ast.Name)]
+            fld = next((k.arg for k in v.keywords if k.arg and isinstance(k.value, (ast.Name, ast.Attribute)) and chain_key(k.value) == container), None)
+            if fld is None:
+                fld = next((fields[i] for i, a in enumerate(v.args) if i < len(fields) and isinstance(a, (ast.Name, ast.Attribute)) and chain_key(a) == container), None)
+            idx.add(("field", fld) if fld else None)
         else:
             idx.add(None)
     if len(idx) != 1 or None in idx:
         return False
     k = next(iter(idx))
+    if isinstance(k, tuple) and k[0] == "objfield":
+        return isinstance(expr, ast.Attribute) and expr.attr == k[2] and origins(prog, call, expr.value, node) == frozenset({("unpack", ("call", ext.qual), k[1])})
+    if isinstance(k, tuple) and k[0] == "field":
+        return isinstance(expr, ast.Attribute) and expr.attr == k[1] and origins(prog, call, expr.value, node) == frozenset({("call", ext.qual)})
     org = origins(prog, call, expr, node)
     return org == (frozenset({("call", ext.qual)}) if k == "whole" else frozenset({("unpack", ("call", ext.qual), k)}))
 
